@@ -423,6 +423,52 @@ func onPathMarking(c *an.Ctx, det *ssa.Function, rule string) {
 
 // declaredDependencies checks C05.4.
 func declaredDependencies(c *an.Ctx, rule string) {
+	declaredList(c, rule, "Stage.DependsOn", "stageDefinition.DependsOn", "the stage's dependencies", "the definition's depends_on", "an entry dropped or rewritten on the way is an edge the cycle check never sees")
+}
+
+// declaredList: what internal/config stores into target (a list field of a built object) is the list decoded into
+// source (the field of the definition), unchanged — a defensive copy counts, a filter does not.
+func declaredList(c *an.Ctx, rule, target, source, what, declared, consequence string) {
+	p := c.P
+	n := 0
+	for _, fn := range p.Funcs {
+		if !inPkgs("internal/config")(fn) {
+			continue
+		}
+		an.EachInstr(fn, func(in ssa.Instruction) {
+			st, ok := in.(*ssa.Store)
+			if !ok {
+				return
+			}
+			fa, ok := st.Addr.(*ssa.FieldAddr)
+			if !ok || an.TypeField(fa) != target {
+				return
+			}
+			n++
+			prov := an.FieldProv(an.ContentOf(st.Val))
+			good := prov == source
+			if !good {
+				good = true
+				srcs := p.DeepSources(st.Val, 3, true)
+				if len(srcs) == 0 {
+					good = false
+				}
+				for _, src := range srcs {
+					if an.FieldProv(an.ContentOf(src)) != source {
+						good = false
+						prov = an.FieldProv(src)
+					}
+				}
+			}
+			c.Check(good, rule, an.Short(fn)+":"+target, st.Pos(), what+" are "+declared+" as decoded", what+" are not "+declared+" list as decoded but "+prov+": "+consequence)
+		})
+	}
+	if n == 0 {
+		c.Und(rule, "config:"+target, token.NoPos, "internal/config never sets "+target)
+	}
+}
+
+func declaredDependenciesOld(c *an.Ctx, rule string) {
 	p := c.P
 	n := 0
 	for _, fn := range p.Funcs {
